@@ -80,13 +80,21 @@ def saved_restored(ctx, fn: FunctionInfo, attr: str) -> bool:
             recv, val = e.data[0], e.data[2]
             # list idiom: recv = elem(L)[0], val = elem(L)[1], L a comprehension capturing attr
             if recv[0] == 'sub' and val[0] == 'sub' and recv[1] == val[1] and \
-                    recv[1][0] == 'elem' and recv[1][1][0] == 'comp':
-                compt = recv[1][1]
-                elt = compt[2][0]
-                if elt[0] == 'tuple' and len(elt[1]) == 2 and elt[1][1] == ('attr', elt[1][0],
-                                                                             attr):
+                    recv[1][0] == 'elem':
+                src = recv[1][1]
+                pair = None
+                if src[0] == 'comp' and src[1] != 'dict':
+                    elt = src[2][0]
+                    if elt[0] == 'tuple' and len(elt[1]) == 2:
+                        pair = (elt[1][0], elt[1][1])
+                mci = method_call(src)
+                if mci and mci[1] == 'items' and mci[0][0] == 'comp' and mci[0][1] == 'dict' \
+                        and len(mci[0][2]) == 2:
+                    # dict idiom: {m: m.attr for m in ...}; for m, v in saved.items(): m.attr = v
+                    pair = (mci[0][2][0], mci[0][2][1])
+                if pair is not None and pair[1] == ('attr', pair[0], attr):
                     # restore happens after the disturbing calls (loop may run 0 times only if
-                    # the list is empty)
+                    # the saved collection is empty)
                     if i > max(calls):
                         good = True
             # scalar idiom
@@ -103,7 +111,8 @@ def saved_restored(ctx, fn: FunctionInfo, attr: str) -> bool:
             good = False
             # a zero-iteration restore loop means nothing was saved -> nothing to restore
             for e in p.events:
-                if e.kind == 'loop0' and e.data[1] is not None and e.data[1][0] == 'comp' and \
+                if e.kind == 'loop0' and e.data[1] is not None and \
+                        any(x[0] == 'comp' for x in subterms(e.data[1])) and \
                         mentions(e.data[1], lambda y: y[0] == 'attr' and y[2] == attr):
                     good = True
         ok_all = ok_all and good
